@@ -271,7 +271,10 @@ func runPluginProc() int {
 				obs.Class = "executableFileError"
 			case errors.As(callErr, &me):
 				obs.Class = "malformedError"
-			case func() bool { s, _ := errText(callErr); return strings.Contains(s, "plugin executable file name must be") }():
+			case func() bool {
+				s, _ := errText(callErr)
+				return strings.Contains(s, "plugin executable file name must be")
+			}():
 				obs.Class = "nameError"
 			default:
 				obs.Class = "otherError"
